@@ -114,6 +114,20 @@ func c02MakeLog(name string, chunks [][]string, hours []int, gaps []int) c02Log 
 	return l
 }
 
+// c02LenLog: n old entries (setup and keep-alives, 100 ms apart) followed by one recent JOIN.  Code that treats
+// ranges of the log in blocks has its boundaries somewhere along this axis.
+func c02LenLog(n int) c02Log {
+	old := []string{"cfg", "+A", "A: NICK a", "A: USER a 0 * :A"}
+	for k := len(old); k < n; k++ {
+		old = append(old, fmt.Sprintf("A: PING %d", k))
+	}
+	l := c02MakeLog(fmt.Sprintf("len-%d", n), [][]string{old, {"A: JOIN #new"}}, []int{0, 100}, []int{0, 0})
+	for k := range l.Chunks[0].Entries {
+		l.Chunks[0].Entries[k].UnixNano = c02Epoch + int64(k)*int64(100*time.Millisecond)
+	}
+	return l
+}
+
 func c02Logs(thorough bool) []c02Log {
 	setup := []string{"cfg", "+A", "A: NICK a", "A: USER a 0 * :A"}
 	join := []string{"A: JOIN #c", "+B", "B: NICK b", "B: USER b 0 * :B", "B: JOIN #c"}
@@ -685,11 +699,24 @@ func TestVerifC02(t *testing.T) {
 			}
 		}
 	}
+	// length sweep: every number of old entries from 4 to 260 (thorough: 520) in front of one recent entry;
+	// snapshot that folds the old ones, persist, restart
+	maxLen := 260
+	if thorough {
+		maxLen = 520
+	}
+	for n := 4; n <= maxLen; n++ {
+		jobs = append(jobs, job{c02LenLog(n), []string{"apply", "apply", "snapP:0", "restart"}, true})
+	}
 	if rp := os.Getenv("VERIF_REPLAY"); rp != "" {
 		b, _ := os.ReadFile(rp)
 		var v vViol
 		json.Unmarshal(b, &v)
 		jobs = nil
+		if len(v.Seq) > 2 && strings.HasPrefix(v.Seq[0], "len-") {
+			n, _ := strconv.Atoi(v.Seq[0][4:])
+			jobs = append(jobs, job{c02LenLog(n), v.Seq[2:], v.Seq[1] == "protobuf"})
+		}
 		for _, l := range c02Logs(true) {
 			if len(v.Seq) > 0 && l.Name == v.Seq[0] {
 				jobs = append(jobs, job{l, v.Seq[2:], v.Seq[1] == "protobuf"})
@@ -763,7 +790,11 @@ func TestVerifC02(t *testing.T) {
 		if n < len(w.applied) {
 			folded++
 		}
-		res.EndStates[fmt.Sprintf("%s: %d applied, %d retained, %d snapshots persisted", j.log.Name, len(w.applied), n, len(w.persisted))]++
+		if strings.HasPrefix(j.log.Name, "len-") {
+			res.EndStates[fmt.Sprintf("len-N (length sweep): all but %d folded, %d snapshots persisted", n, len(w.persisted))]++
+		} else {
+			res.EndStates[fmt.Sprintf("%s: %d applied, %d retained, %d snapshots persisted", j.log.Name, len(w.applied), n, len(w.persisted))]++
+		}
 		if len(res.Samples) < 4 && ji%211 == shard {
 			res.Samples = append(res.Samples, fmt.Sprintf("log %s (%s) schedule %v: %d entries applied, %d retained in the log copy, %d snapshots persisted", j.log.Name, enc, j.seq, len(w.applied), n, len(w.persisted)))
 		}
